@@ -17,6 +17,9 @@ var ifaceExternals map[string]extHandler
 // externalWrites: externals that modify caller-visible memory (none of the modelled ones do).
 var externalWrites = map[string]bool{}
 
+// externalWriteFams: precise write sets of modelled externals (for loop havoc computation).
+var externalWriteFams = map[string]func(u *Unit, callee *ssa.Function, ws *writeSet){}
+
 // externalReadonly: body-less library functions known not to write caller-visible memory.
 var externalReadonly = map[string]bool{
 	"reflect.DeepEqual":           true,
@@ -277,28 +280,105 @@ func init() {
 	_ = timeT
 	// metav1.Time: pointer-receiver comparisons read the cell
 	mt := "k8s.io/apimachinery/pkg/apis/meta/v1.Time"
-	externals["(*"+mt+").Before"] = func(u *Unit, fr *frame, st *State, c *ssa.Function, a []Value, rt types.Type, pos token.Pos) Value {
-		x, y := u.asSc(a[0], nil), u.asSc(a[1], nil)
+	timeArg := func(u *Unit, st *State, v Value) (val Term, nonnil Term) {
 		t := u.w.lookupType("k8s.io/apimachinery/pkg/apis/meta/v1", "Time")
-		xv := Select(u.heapGet(st, cellFam(t), ArrSort(SInt, SInt)), x.T)
-		yv := Select(u.heapGet(st, cellFam(t), ArrSort(SInt, SInt)), y.T)
-		// nil receivers / arguments: (t != nil && u != nil) ? t.Before(u) : false
-		return Sc{And(Neq(x.T, TNil), Neq(y.T, TNil), Cmp("<", xv, yv)), types.Typ[types.Bool]}
+		switch x := v.(type) {
+		case LocPtr:
+			return u.asSc(u.loadLoc(st.View(), x.Fam, x.Idx, x.Typ), nil).T, TTrue
+		case Sc:
+			return Select(u.heapGet(st, cellFam(t), ArrSort(SInt, SInt)), x.T), Neq(x.T, TNil)
+		}
+		return u.ctx.Fresh("time", SInt), u.ctx.Fresh("timenn", SBool)
+	}
+	externals["(*"+mt+").Before"] = func(u *Unit, fr *frame, st *State, c *ssa.Function, a []Value, rt types.Type, pos token.Pos) Value {
+		xv, xn := timeArg(u, st, a[0])
+		yv, yn := timeArg(u, st, a[1])
+		// (t != nil && u != nil) ? t.Before(u) : false
+		return Sc{And(xn, yn, Cmp("<", xv, yv)), types.Typ[types.Bool]}
 	}
 	externals["(*"+mt+").Equal"] = func(u *Unit, fr *frame, st *State, c *ssa.Function, a []Value, rt types.Type, pos token.Pos) Value {
-		x, y := u.asSc(a[0], nil), u.asSc(a[1], nil)
-		t := u.w.lookupType("k8s.io/apimachinery/pkg/apis/meta/v1", "Time")
-		xv := Select(u.heapGet(st, cellFam(t), ArrSort(SInt, SInt)), x.T)
-		yv := Select(u.heapGet(st, cellFam(t), ArrSort(SInt, SInt)), y.T)
-		return Sc{Ite(And(Eq(x.T, TNil), Eq(y.T, TNil)), TTrue, And(Neq(x.T, TNil), Neq(y.T, TNil), Eq(xv, yv))), types.Typ[types.Bool]}
+		xv, xn := timeArg(u, st, a[0])
+		yv, yn := timeArg(u, st, a[1])
+		return Sc{Ite(And(Not(xn), Not(yn)), TTrue, And(xn, yn, Eq(xv, yv))), types.Typ[types.Bool]}
 	}
 	externals["(*"+mt+").IsZero"] = func(u *Unit, fr *frame, st *State, c *ssa.Function, a []Value, rt types.Type, pos token.Pos) Value {
-		x := u.asSc(a[0], nil)
-		t := u.w.lookupType("k8s.io/apimachinery/pkg/apis/meta/v1", "Time")
-		xv := Select(u.heapGet(st, cellFam(t), ArrSort(SInt, SInt)), x.T)
-		return Sc{Or(Eq(x.T, TNil), Eq(xv, TZero)), types.Typ[types.Bool]}
+		xv, xn := timeArg(u, st, a[0])
+		return Sc{Or(Not(xn), Eq(xv, TZero)), types.Typ[types.Bool]}
 	}
 	externals[mt+"Now"] = externals["time.Now"]
+	// maps -------------------------------------------------------------------
+	externals["maps.Clone"] = func(u *Unit, fr *frame, st *State, c *ssa.Function, a []Value, rt types.Type, pos token.Pos) Value {
+		mt := c.Signature.Params().At(0).Type()
+		m := u.asSc(a[0], mt)
+		ks, vt := u.mapSorts(mt)
+		r := u.newObject(st)
+		domFam := mapDomFam(mt)
+		domArr := u.heapGet(st, domFam, ArrSort(SInt, ArrSort(ks, SBool)))
+		u.heapSet(st, domFam, Store(domArr, r, Select(domArr, m.T)))
+		for _, cp := range comps(vt) {
+			fam := mapValFam(mt) + cp[0]
+			arr := u.heapGet(st, fam, ArrSort(SInt, ArrSort(ks, cp[1])))
+			u.heapSet(st, fam, Store(arr, r, Select(arr, m.T)))
+		}
+		// Clone(nil) == nil
+		return Sc{u.ctx.Named("clone", Ite(Eq(m.T, TNil), TNil, r)), rt}
+	}
+	externalWriteFams["maps.Clone"] = func(u *Unit, callee *ssa.Function, ws *writeSet) {
+		ws.allocs = true
+		u.addMapWrite(ws, callee.Signature.Params().At(0).Type(), nil, func(ssa.Value) bool { return true }, true)
+	}
+	externals["maps.Copy"] = func(u *Unit, fr *frame, st *State, c *ssa.Function, a []Value, rt types.Type, pos token.Pos) Value {
+		dt := c.Signature.Params().At(0).Type()
+		stp := c.Signature.Params().At(1).Type()
+		d := u.asSc(a[0], dt)
+		sm := u.asSc(a[1], stp)
+		ks, vt := u.mapSorts(dt)
+		view := st.View()
+		srcDom := Ite(Eq(sm.T, TNil), Term{"((as const " + ArrSort(ks, SBool) + ") false)", ArrSort(ks, SBool)}, u.mapDom(view, stp, sm.T))
+		// writing into a nil destination panics unless the source is empty
+		nonEmpty := Term{fmt.Sprintf("(exists ((k %s)) (select %s k))", ks, srcDom.S), SBool}
+		u.panicIf(st, And(Eq(d.T, TNil), nonEmpty), pos, "maps.Copy into nil map")
+		domFam := mapDomFam(dt)
+		domArr := u.heapGet(st, domFam, ArrSort(SInt, ArrSort(ks, SBool)))
+		oldDom := Select(domArr, d.T)
+		newDom := u.ctx.Fresh("dom", ArrSort(ks, SBool))
+		u.assume(st, Term{fmt.Sprintf("(forall ((k %s)) (! (= (select %s k) (or (select %s k) (select %s k))) :pattern ((select %s k))))", ks, newDom.S, oldDom.S, srcDom.S, newDom.S), SBool}, "maps.Copy domain")
+		u.heapSet(st, domFam, Ite(Eq(d.T, TNil), domArr, Store(domArr, d.T, newDom)))
+		for _, cp := range comps(vt) {
+			dfam := mapValFam(dt) + cp[0]
+			sfam := mapValFam(stp) + cp[0]
+			darr := u.heapGet(st, dfam, ArrSort(SInt, ArrSort(ks, cp[1])))
+			sarr := u.viewGet(view, sfam, ArrSort(SInt, ArrSort(ks, cp[1])))
+			oldV := Select(darr, d.T)
+			srcV := Select(sarr, sm.T)
+			newV := u.ctx.Fresh("val", ArrSort(ks, cp[1]))
+			u.assume(st, Term{fmt.Sprintf("(forall ((k %s)) (! (= (select %s k) (ite (select %s k) (select %s k) (select %s k))) :pattern ((select %s k))))", ks, newV.S, srcDom.S, srcV.S, oldV.S, newV.S), SBool}, "maps.Copy values")
+			u.heapSet(st, dfam, Ite(Eq(d.T, TNil), darr, Store(darr, d.T, newV)))
+		}
+		return nil
+	}
+	externalWriteFams["maps.Copy"] = func(u *Unit, callee *ssa.Function, ws *writeSet) {
+		u.addMapWrite(ws, callee.Signature.Params().At(0).Type(), nil, func(ssa.Value) bool { return true }, true)
+	}
+	sliceContains := func(u *Unit, fr *frame, st *State, c *ssa.Function, a []Value, rt types.Type, pos token.Pos) Value {
+		sl, ok := a[0].(SliceV)
+		if !ok || scalarSort(sl.Elem) == "" {
+			u.note("slices.Contains on non-scalar elements: result unconstrained")
+			return u.freshValue(types.Typ[types.Bool], "contains")
+		}
+		v := u.asSc(a[1], sl.Elem)
+		arr := u.heapGet(st, cellFam(sl.Elem), ArrSort(SInt, scalarSort(sl.Elem)))
+		r := u.ctx.Fresh("contains", SBool)
+		u.assume(st, Eq(r, Term{fmt.Sprintf("(exists ((i Int)) (and (>= i 0) (< i %s) (= (select %s (ea %s (+ %s i))) %s)))", sl.Len.S, arr.S, sl.Arr.S, sl.Off.S, v.T.S), SBool}), "slices.Contains")
+		return Sc{r, types.Typ[types.Bool]}
+	}
+	externals["slices.Contains"] = sliceContains
+	externals["golang.org/x/exp/slices.Contains"] = sliceContains
+	// x/exp/maps.Clone behaves like maps.Clone
+	externals["golang.org/x/exp/maps.Clone"] = externals["maps.Clone"]
+	externalWriteFams["golang.org/x/exp/maps.Clone"] = externalWriteFams["maps.Clone"]
+	externals["golang.org/x/exp/maps.Copy"] = externals["maps.Copy"]
+	externalWriteFams["golang.org/x/exp/maps.Copy"] = externalWriteFams["maps.Copy"]
 	// strings ----------------------------------------------------------------
 	// (scalar-pure default covers HasPrefix/Contains/ToLower/...)
 	_ = strings.ToLower
